@@ -123,3 +123,9 @@ package xsurveyor
 //@   ensures result.Self == 98 && result.Peer == 99 && result.SelfName == "surveyor" && result.PeerName == "respondent"
 //@
 // ---- end generated Info contracts ----
+
+// ---- RemovePipe: the pipe leaves the map and its close channel is closed (round 7b) ----
+//@ func (*socket).RemovePipe
+//@   before call:delete#1 assert arg0 == p.s.pipes && held(s.Mutex)
+//@   before call:close#1 assert arg0 == p.closeQ
+//@   ensures called("delete")
